@@ -109,7 +109,24 @@ pub trait Dig {
 macro_rules! dig_plain {
     ($($t:ty),*) => {$(impl Dig for $t { fn dig(&self) -> u64 { digest(self) } })*};
 }
-dig_plain!(u8, u16, u32, u64, i64, usize, bool, (), S3, Z);
+dig_plain!(u8, u16, u32, u64, i64, usize, bool, (), S3, Z, DetErr);
+
+/// An error type that CAN be integer-coded (it implements `IntError`) but loses its `detail` when it is: a method
+/// that does not ask for integer results must carry it in a CResult, both fields intact.
+#[repr(C)]
+#[derive(Clone, Copy, Debug, PartialEq, Eq, Hash)]
+pub struct DetErr {
+    pub code: u32,
+    pub detail: u32,
+}
+impl cglue::result::IntError for DetErr {
+    fn into_int_err(self) -> ::core::num::NonZeroI32 {
+        ::core::num::NonZeroI32::new((self.code as i32) | 1).unwrap()
+    }
+    fn from_int_err(err: ::core::num::NonZeroI32) -> Self {
+        DetErr { code: err.get() as u32, detail: 0 }
+    }
+}
 impl<T: Dig> Dig for [T] {
     fn dig(&self) -> u64 {
         seen(self.as_ptr());
